@@ -8,12 +8,13 @@ OUT="${SELFTEST_OUT:-mutants/RESULTS.md}"
 TMP=$(mktemp)
 for pid in $PIDS; do
   [ -f "checks/$(echo $pid | tr 'A-Z' 'a-z').py" ] || continue
-  for m in mutants/$pid/*.diff; do
+  for m in mutants/$pid/*.diff seeded/$pid-*/patch.diff; do
     [ -f "$m" ] || continue
     res=$(VERIF_JOBS="${VERIF_JOBS:-8}" tools/mutant.sh "$m" "$pid" 2>&1 | tail -1)
     case "$res" in *CAUGHT*) r=caught;; *"does not apply"*) r="patch-does-not-apply";; *) r=MISSED;; esac
-    echo "| $pid | $(basename $m .diff) | $r |" >> "$TMP"
-    echo "$pid $(basename $m) $r"
+    case "$m" in seeded/*) name="seeded/$(basename $(dirname $m))";; *) name="$(basename $m .diff)";; esac
+    echo "| $pid | $name | $r |" >> "$TMP"
+    echo "$pid $name $r"
   done
 done
 { echo "# Sensitivity results (tools/selftest.sh, quick tier, seed ${VERIF_SEED:-1})"; echo; echo "| property | mutant | result |"; echo "|---|---|---|"; cat "$TMP"; } > "$OUT"
